@@ -544,8 +544,14 @@ static int read_segment_id(EbDecHandle *dec_handle, ParseCtxt *parse_ctxt, Parti
     struct segmentation_probs *segp     = &ec_ctx->seg;
     AomCdfProb *               pred_cdf = segp->spatial_pred_seg_cdf[cdf_num];
 
-    int coded_id = svt_read_symbol(r, pred_cdf, MAX_SEGMENTS, ACCT_STR);
-    return neg_deinterleave(coded_id, predictor, seg->last_active_seg_id + 1);
+    int coded_id   = svt_read_symbol(r, pred_cdf, MAX_SEGMENTS, ACCT_STR);
+    int segment_id = neg_deinterleave(coded_id, predictor, seg->last_active_seg_id + 1);
+    /* corrupt data can yield an id outside 0..last_active_seg_id; it indexes per-segment tables everywhere */
+    if (segment_id < 0)
+        segment_id = 0;
+    if (segment_id > seg->last_active_seg_id)
+        segment_id = seg->last_active_seg_id;
+    return segment_id;
 }
 
 int intra_segment_id(EbDecHandle *dec_handle, ParseCtxt *parse_ctxt, PartitionInfo *xd, int bsize,
